@@ -289,3 +289,144 @@ Qed.
 
 Theorem edge_lists_add a b term i : edge_sum (a ++ b) term i = edge_sum a term i + edge_sum b term i.
 Proof. apply edge_sum_app. Qed.
+
+(* ------------------------------------------------------------------ one Connectivity inside a network *)
+Lemma rect_rows nt ns W : rect nt ns W = true ->
+  length W = nt /\ forall i, (i < nt)%nat -> length (nth i W []) = ns.
+Proof.
+  unfold rect. rewrite andb_true_iff, Nat.eqb_eq. intros [HL HR]. split; [exact HL|].
+  intros i Hi. rewrite forallb_forall in HR. apply Nat.eqb_eq. apply HR. apply nth_In. lia.
+Qed.
+
+Lemma rect_ncols nt ns W : rect nt ns W = true -> forallb (fun r => (length r =? ncols W)%nat) W = true.
+Proof.
+  intros H. destruct (rect_rows _ _ _ H) as [HL HR]. unfold rect in H. apply andb_true_iff in H. destruct H as [_ H].
+  rewrite forallb_forall in *. intros r Hr. specialize (H r Hr). apply Nat.eqb_eq in H. apply Nat.eqb_eq.
+  unfold ncols. destruct W as [|r0 W]; [inversion Hr|]. cbn [hd]. rewrite H. symmetry.
+  specialize (HR 0%nat). cbn [nth length] in HR, HL. apply HR. lia.
+Qed.
+
+(* the guards that concern a single connection *)
+Definition conn_guard (N : popnet) (c : conn) : bool :=
+  negb (collides N c) &&
+  match cw c, ccpl c with
+  | WScal w, CPlain => negb (near_one w) || Qceqb w 1
+  | WScal _, _ => false
+  | WMat _, _ => true
+  end.
+
+(* the state has the shapes of the network *)
+Definition shapes_ok (N : popnet) (hist : list nstate) (c : conn) (V : mat) : Prop :=
+  length (delayed N hist (eff_delay (cdelay c)) (csrc c) (csv c)) = size_of N (csrc c) /\
+  length (post_of N hist c) = size_of N (ctgt c) /\
+  (is_dyn (ccpl c) = true -> length V = size_of N (ctgt c)).
+
+Theorem pop_contrib_is_edge_sum N hist c V i :
+  wf_conn N c = true -> conn_guard N c = true -> shapes_ok N hist c V -> (i < size_of N (ctgt c))%nat ->
+  nth i (pop_contrib N hist c V) 0 = edge_sum (expand_conn 0 N c) (exp_term N hist c V) i.
+Proof.
+  intros Hwf Hg (Hs & Ht & HV) Hi.
+  unfold conn_guard in Hg. apply andb_true_iff in Hg. destruct Hg as [Hcol Hg]. apply negb_true_iff in Hcol.
+  unfold wf_conn in Hwf. apply andb_true_iff in Hwf. destruct Hwf as [_ Hrect].
+  unfold pop_contrib, expand_conn, pop_source. rewrite Hcol.
+  set (s := delayed N hist (eff_delay (cdelay c)) (csrc c) (csv c)) in *.
+  set (t := post_of N hist c) in *.
+  destruct (cw c) as [W|w] eqn:Ew.
+  - destruct (rect_rows _ _ _ Hrect) as [HL HR].
+    destruct (ccpl c) as [|b f|b g] eqn:Ek.
+    + rewrite (case0a_matvec W s (rect_ncols _ _ _ Hrect)), matvec_is_edge_sum.
+      unfold exp_term. rewrite Ek. reflexivity.
+    + specialize (HR i Hi). rewrite wsum_broadcast_is_edge_sum; [| unfold vec, mat in *; lia ..].
+      unfold exp_term. rewrite Ek. reflexivity.
+    + specialize (HV eq_refl). rewrite wsum_states_is_edge_sum; [| unfold vec, mat in *; lia ..].
+      unfold exp_term. rewrite Ek. reflexivity.
+  - destruct (ccpl c) eqn:Ek; try discriminate.
+    rewrite nth_repeat_lt by exact Hi. unfold exp_term. rewrite Ek. cbn zeta. fold s. rewrite <- Hs.
+    rewrite <- (scalar_is_edge_sum w s (size_of N (ctgt c)) i Hi).
+    + destruct (near_one w) eqn:En; [|reflexivity]. cbn [negb orb] in Hg.
+      unfold Qceqb in Hg. apply Qeq_bool_eq in Hg. apply Qc_is_canon in Hg. subst w. ring.
+Qed.
+
+(* boolean comparison is reflexive: a computed `false` proves a disequality *)
+Lemma vec_eqb_refl v : vec_eqb v v = true.
+Proof.
+  unfold vec_eqb. rewrite Nat.eqb_refl. cbn [andb]. induction v as [|a v IH]; [reflexivity|].
+  cbn [combine forallb fst snd]. unfold Qceqb at 1. rewrite Qeq_bool_refl. exact IH.
+Qed.
+Lemma list_eqb_refl {A} (eqb : A -> A -> bool) : (forall x, eqb x x = true) -> forall l, list_eqb eqb l l = true.
+Proof. intros H. induction l as [|x l IH]; [reflexivity|]. cbn [list_eqb]. now rewrite H, IH. Qed.
+Lemma pstate_eqb_refl s : pstate_eqb s s = true.
+Proof. unfold pstate_eqb. now rewrite !vec_eqb_refl. Qed.
+Lemma otraj_neq a b : otraj_eqb a b = false -> a <> b.
+Proof.
+  intros H E. subst b. destruct a as [t|]; [|discriminate]. cbn [otraj_eqb] in H.
+  unfold traj_eqb in H. rewrite list_eqb_refl in H; [discriminate|].
+  intros l. apply list_eqb_refl. apply pstate_eqb_refl.
+Qed.
+
+(* the full statement is false of the faithful model: computed witnesses, one per guard *)
+Definition st1 (x z : vec) : pstate := {| sx := x; sz := z |}.
+Definition mkconn s sv t tv w k pv d : conn :=
+  {| csrc := s; csv := sv; ctgt := t; ctv := tv; cw := w; ccpl := k; cpv := pv; cdelay := d |}.
+Definition two_pops (n0 n1 : nat) : list pop :=
+  [ {| psize := n0; ppars := [PScal 0; PScal 0; PScal 0; PScal 0] |}; {| psize := n1; ppars := [PScal 0; PScal 0; PScal 0; PScal 0] |} ].
+Definition W22 : mat := [[mkq 1 1; mkq (-2) 1]; [mkq 3 4; mkq (-1) 1]].
+Definition units22 : list pstate := [st1 [mkq 1 2; mkq 1 1] [0; 0]; st1 [mkq 1 1; mkq 2 1] [0; 0]].
+
+(* scalar weight + coupling template: the template is ignored *)
+Definition N_scalar_coupling : popnet :=
+  {| pops := two_pops 2 2; conns := [mkconn 0 0 1 0 (WScal (mkq 2 1)) cpl_diff 0 0] |}.
+Lemma refuted_scalar_coupling :
+  wf_net N_scalar_coupling = true /\ g_scalar_plain N_scalar_coupling = false /\
+  pop_run unit_poly N_scalar_coupling units22 (mkq 1 4) 2 <> Some (exp_run 0 unit_poly N_scalar_coupling units22 (mkq 1 4) 2).
+Proof. repeat split; try (vm_compute; reflexivity). apply otraj_neq. vm_compute. reflexivity. Qed.
+
+(* a scalar weight within 1e-8 of 1 is replaced by 1 *)
+Definition N_near_one : popnet :=
+  {| pops := two_pops 2 2; conns := [mkconn 0 0 1 0 (WScal (mkq 1073741825 1073741824)) CPlain 0 0] |}.
+Lemma refuted_near_one :
+  wf_net N_near_one = true /\ g_not_near_one N_near_one = false /\
+  pop_run unit_poly N_near_one units22 (mkq 1 4) 2 <> Some (exp_run 0 unit_poly N_near_one units22 (mkq 1 4) 2).
+Proof. repeat split; try (vm_compute; reflexivity). apply otraj_neq. vm_compute. reflexivity. Qed.
+
+(* post-synaptic variable named like the source variable, two populations of equal size: the source is lost *)
+Definition N_post_name : popnet :=
+  {| pops := two_pops 2 2; conns := [mkconn 0 0 1 0 (WMat W22) cpl_diff 0 0] |}.
+Lemma refuted_post_name :
+  wf_net N_post_name = true /\ g_post_name N_post_name = false /\
+  pop_run unit_poly N_post_name units22 (mkq 1 4) 2 <> Some (exp_run 0 unit_poly N_post_name units22 (mkq 1 4) 2).
+Proof. repeat split; try (vm_compute; reflexivity). apply otraj_neq. vm_compute. reflexivity. Qed.
+
+(* loud classes: the population circuit raises, the explicit network has a value *)
+Definition N_dup_sources : popnet :=
+  {| pops := two_pops 2 2; conns := [mkconn 0 0 1 0 (WMat W22) CPlain 0 0; mkconn 0 1 1 0 (WScal (mkq 3 1)) CPlain 0 0] |}.
+Definition N_coupling_shape : popnet :=
+  {| pops := two_pops 2 1; conns := [mkconn 0 0 1 0 (WMat ([mkq 1 1; mkq (-2) 1] :: nil)) cpl_id 0 0] |}.
+Definition N_alias : popnet :=
+  {| pops := two_pops 2 2; conns := [mkconn 0 0 0 0 (WMat W22) cpl_diff 0 0; mkconn 1 0 0 0 (WMat W22) CPlain 0 0] |}.
+Definition N_delay_1x1 : popnet :=
+  {| pops := two_pops 1 1; conns := [mkconn 0 0 1 0 (WMat ((mkq 3 1 :: nil) :: nil)) CPlain 0 2] |}.
+Lemma refuted_loud :
+  (wf_net N_dup_sources = true /\ g_distinct_sources N_dup_sources = false /\ pop_run unit_poly N_dup_sources units22 (mkq 1 4) 2 = None) /\
+  (wf_net N_coupling_shape = true /\ g_coupling_shape N_coupling_shape = false /\
+   pop_run unit_poly N_coupling_shape [st1 [mkq 1 2; mkq 1 1] [0; 0]; st1 (mkq 1 1 :: nil) (0 :: nil)] (mkq 1 4) 2 = None) /\
+  (wf_net N_alias = true /\ g_no_alias N_alias = false /\ pop_run unit_poly N_alias units22 (mkq 1 4) 2 = None) /\
+  (wf_net N_delay_1x1 = true /\ g_delay_shape N_delay_1x1 = false /\
+   pop_run unit_poly N_delay_1x1 [st1 (mkq 1 2 :: nil) (0 :: nil); st1 (mkq 1 1 :: nil) (0 :: nil)] (mkq 1 4) 2 = None).
+Proof. repeat split; vm_compute; reflexivity. Qed.
+
+(* non-vacuity: a guard-satisfying network with a non-square signed matrix, a scalar weight onto the same target, a
+   coupled matrix and per-unit parameters; Impl and Spec agree on a 3-row trajectory and the values move *)
+Definition N_example : popnet :=
+  {| pops := [ {| psize := 3; ppars := [PVec [mkq 1 4; mkq 1 2; mkq (-1) 4]; PScal (mkq 1 4); PScal (mkq 1 2); PVec [0; mkq 1 2; mkq 1 1]] |};
+               {| psize := 2; ppars := [PScal (mkq 1 2); PVec [mkq 1 4; mkq 1 2]; PScal (mkq 1 2); PScal 0] |} ];
+     conns := [ mkconn 0 0 1 0 (WMat [[mkq 1 1; mkq (-2) 1; mkq 1 2]; [0; mkq 3 4; mkq (-1) 1]]) CPlain 0 0;
+                mkconn 1 1 1 0 (WScal (mkq 3 2)) CPlain 0 0;
+                mkconn 1 0 0 1 (WMat [[mkq 1 1; 0]; [mkq 1 2; mkq (-1) 1]; [0; mkq 2 1]]) cpl_prod 1 0 ] |}.
+Definition units_example : list pstate :=
+  [st1 [mkq 1 2; mkq 1 1; mkq 3 2] [mkq (-1) 4; 0; mkq 1 4]; st1 [mkq 1 1; mkq 2 1] [mkq (-1) 4; mkq 1 2]].
+Lemma nonvacuous :
+  wf_net N_example = true /\ wf_units N_example units_example = true /\ guards 0 N_example = true /\
+  pop_run unit_poly N_example units_example (mkq 1 4) 3 = Some (exp_run 0 unit_poly N_example units_example (mkq 1 4) 3) /\
+  list_eqb pstate_eqb (nth 1 (exp_run 0 unit_poly N_example units_example (mkq 1 4) 3) []) units_example = false.
+Proof. repeat split; vm_compute; reflexivity. Qed.
